@@ -64,6 +64,12 @@ MUTANTS = [
      "combine-time reindexing fills with 0 instead of the aggregation's neutral element"),
     ("m19", "flox/aggregations.py", "            self.finalize_kwargs,\n            self.min_count,\n", "", ["C14"],
      "token no longer covers finalize_kwargs / min_count (the defect fixed in a96b67a)"),
+    ("m21", "flox/xarray.py", "    obj = obj.copy(deep=True)\n\n    if isinstance(obj, xr.Dataset):", "    if isinstance(obj, xr.Dataset):", ["C14"],
+     "xarray rechunk helpers rechunk the caller's Dataset in place"),
+    ("m22", "flox/aggregate_flox.py",
+     "    result = func(group_idx, np.where(isnull(array), fillna, array), *args, **kwargs)\n",
+     "    mask = isnull(array)\n    if mask.any() and array.flags.writeable and array.dtype.kind == 'f':\n        array[mask] = fillna  # avoid the copy np.where makes\n        result = func(group_idx, array, *args, **kwargs)\n        array[mask] = np.nan\n    else:\n        result = func(group_idx, np.where(isnull(array), fillna, array), *args, **kwargs)\n",
+     ["C13"], "NaN substitution done in place and undone afterwards: a transient write into the input block"),
     ("m20", "flox/core.py", '            groups_in_block = tuple(\n                _unique(by_input[slc]) if sort else pd.unique(by_input[slc].reshape(-1)) for slc in slices\n            )\n',
      '            groups_in_block = tuple(_unique(by_input[slc]) for slc in slices)\n', ["C16", "C05"],
      "blockwise announces sorted labels for sort=False (the defect fixed in e35fe4d)"),
